@@ -1081,12 +1081,12 @@ MODEL = {
         [G.op_roll(2, 1, [G.op_split('modc', 2, [])])], [G.op_group_by('modc', 2, [G.op_roll(2, 2, [])])],
         [G.op_tee('merge', [[G.op_roll(2, 2, [])], []])], [G.op_split('modc', 2, [G.op_group_by('modc', 2, [])])],
         [G.op_roll(1, 2, [G.op_filter('false')])], [G.op_roll(3, 2, [])],
-    ], deviations=[]),
+    ], deviations=['tee-create-every-branch', 'group-index-per-parent']),
     'C04': dict(pipes=lambda: [
         [G.op_group_by('modc', 2, [])], [G.op_group_by('id', 0, [G.op_simple('to_list')])],
         [G.op_roll(2, 2, [G.op_group_by('modc', 2, [])])],
         [G.op_group_by('modc', 2, [G.op_group_by('id', 0, [{'op': 'count', 'reduce': True}])])],
-    ], deviations=[]),
+    ], deviations=['group-index-per-parent']),
     'C05': dict(pipes=lambda: [[G.op_roll(w, s, [])] for (w, s) in
                                [(1, 1), (2, 1), (3, 1), (3, 2), (2, 3), (2, 2), (3, 3), (1, 3)]]
                 + [[G.op_roll(2, 1, [G.op_roll(2, 2, [])])]],
@@ -1094,18 +1094,18 @@ MODEL = {
     'C06': dict(pipes=lambda: [
         [G.op_split('modc', 2, [])], [G.op_split('divc', 2, [G.op_simple('to_list')])],
         [G.op_roll(2, 2, [G.op_split('modc', 2, [])])], [G.op_split('modc', 2, [G.op_split('divc', 2, [])])],
-    ], deviations=[]),
+    ], deviations=['split-no-store']),
     'C07': dict(kind='ts', pipes=lambda: [
         [G.op_time_split(2, -1, False, True, [])], [G.op_time_split(-1, 1, False, True, [])],
         [G.op_time_split(2, 1, True, True, [])], [G.op_time_split(3, 2, True, False, [])],
-    ], deviations=[]),
+    ], deviations=['time-split-inactive-gt']),
     'C08': dict(pipes=lambda: [
         [G.op_tee(j, [[G.op_filter('ltc', 1)], [G.op_filter('gec', 1)]])] for j in ('zip', 'combine_latest', 'merge')]
         + [[G.op_tee('zip', [[_scan_add()], [{'op': 'count', 'reduce': True}], []])],
            [G.op_roll(2, 2, [G.op_tee('zip', [[G.op_filter('ltc', 1)], [G.op_filter('gec', 1)]])])],
            [G.op_split('modc', 2, [G.op_tee('combine_latest', [[G.op_simple('take', n=1)], []])])],
            [G.op_tee('merge', [[G.op_tee('zip', [[], [_scan_add()]])], [G.op_simple('last')]])]],
-        deviations=['tee-reset-last-only']),
+        deviations=['tee-reset-last-only', 'tee-create-every-branch']),
     'C09': dict(pipes=lambda: [
         [_scan_add()], [_scan_add(True)], [G.op_scan('add', I(1), term='addc', tc=10)],
         [G.op_scan('appendMut', ['l', []], reduce=True)], [{'op': 'count', 'reduce': False}],
@@ -1117,20 +1117,20 @@ MODEL = {
         [G.op_simple('distinct', f=fn('id'))], [G.op_simple('lag', n=1)], [G.op_simple('lag', n=2)],
         [G.op_simple('pad_start', n=1, v=NONE)], [G.op_simple('pad_end', n=2, v=I(9))],
         [G.op_simple('start_with', p=[I(7)])], [G.op_simple('batch', n=1)], [G.op_simple('batch', n=3)],
-    ], deviations=[]),
+    ], deviations=['take-off-by-one', 'first-no-flag', 'lag-off-by-one', 'batch-late']),
     'C11': dict(pipes=lambda: [
         [G.op_simple('batch', n=1)], [_scan_add()], [G.op_roll(3, 1, [G.op_agg('sum', True)])],
         [G.op_split('modc', 2, [G.op_simple('to_list')])],
         [G.op_tee('zip', [[_scan_add()], [{'op': 'count', 'reduce': False}]])],
         [G.op_simple('take', n=1), G.op_simple('to_list')],
-    ], deviations=[]),
+    ], deviations=['batch-late']),
     'C13': dict(pipes=lambda: [
         [G.op_map('failIf', 1), G.op_simple('ignore'), _scan_add()],
         [G.op_map('failIf', 1), {'op': 'errmap', 'f': fn('errconst', 7)}, G.op_simple('lag', n=1)],
         [G.op_filter('failIfP', 1), {'op': 'errmap', 'f': fn('errcode')}],
-        [G.op_scan('failAdd', I(0), c=1), G.op_simple('ignore'), G.op_simple('to_list')],
+        [G.op_scan('failAdd', I(0), c=0), G.op_simple('ignore'), G.op_simple('to_list')],
         [G.op_group_by('modc', 2, [G.op_map('failIf', 1)])],
-    ], deviations=[]),
+    ], deviations=['scan-error-loses-state']),
 }
 
 PROPS = {
